@@ -52,8 +52,20 @@ func NewServer() *Server {
 	return srv
 }
 
+// reinitCLI replaces the CLI client. The client pointer is shared with request
+// handlers and is replaced from the configuration goroutine, so it is guarded
+// by settingsMu like the settings it is derived from.
 func (s *Server) reinitCLI(cfg cliSettings) {
-	s.cliClient = cli.NewClient(cfg.Path, cfg.Timeout)
+	client := cli.NewClient(cfg.Path, cfg.Timeout)
+	s.settingsMu.Lock()
+	s.cliClient = client
+	s.settingsMu.Unlock()
+}
+
+func (s *Server) getCLIClient() *cli.Client {
+	s.settingsMu.RLock()
+	defer s.settingsMu.RUnlock()
+	return s.cliClient
 }
 
 func (s *Server) SetClient(client protocol.Client) {
@@ -253,6 +265,9 @@ func (s *Server) DidSave(ctx context.Context, params *protocol.DidSaveTextDocume
 func (s *Server) nextGeneration(docURI protocol.DocumentURI) uint64 {
 	s.publishMu.Lock()
 	defer s.publishMu.Unlock()
+	if s.generations == nil {
+		s.generations = make(map[protocol.DocumentURI]uint64)
+	}
 	s.generations[docURI]++
 	return s.generations[docURI]
 }
